@@ -44,6 +44,10 @@ THEOREMS = [
     "Atomica.C18.checkCodeNames_iff",
     "Atomica.C18.timed_current_weaker",
     "Atomica.C18.timed_current_differs",
+    "Atomica.C18.timedVarying_sound",
+    "Atomica.C18.timedVarying_iff",
+    "Atomica.C18.timedVarying_complete",
+    "Atomica.C18.timedVarying_reported",
     "Atomica.C18.errors_wellformed",
 ]
 TRUSTED = [
@@ -52,12 +56,12 @@ TRUSTED = [
     "mutation catalogue verdicts (harness/vlib/c18mut.py, c18books.py): each is cross-checked against the Lean rule model where the model applies",
     "junction duration-group assignment (_assign_junction_duration_groups) and the Plots sheet are outside the rule model",
 ]
-RULE = ("frameworks: seeded structured generator (1-2 population types, sources/sinks/junction chains/residual links, duration groups, derivative/aggregated/flow functions, "
+RULE = ("frameworks: seeded structured generator (1-2 population types, sources/sinks/junction chains/residual links, duration groups -- the timed parameter sometimes a constant function of a databook parameter --, derivative/aggregated/flow functions, "
         "optional sheets and columns absent or blank) + library and test-suite framework files; every base x every applicable single-rule mutation of the catalogue; "
         "databooks/progbooks: library pairs and generated pairs x book mutations. non-trivial = a mutated case whose catalogue verdict is 'reject', or a base/accept case "
         "with a junction, a timed parameter, two population types or a flow/aggregation function")
 EXPECTED_BRANCHES = ["base.generated.accept", "base.library.accept", "chain.ok", "mut.reject.dedicated", "mut.accept.ok", "rule.match", "db.reject.dedicated", "db.accept.ok",
-                     "pb.reject.dedicated", "errors_fmt.rows"]
+                     "pb.reject.dedicated", "errors_fmt.rows", "timedVarying.rejected", "timedConstant.accepted_runs"]
 ASSUMPTIONS = ["a 'valid number' filling of a generated databook = mutually consistent compartment sizes, rates 0.1-0.5, durations 2, proportions 0.5 (vlib/c18gen.fill_databook)"]
 
 DEDICATED = {"framework": {"InvalidFramework", "InvalidCascade"}, "databook": {"InvalidDatabook"}, "progbook": {"InvalidProgramBook"}}
@@ -124,6 +128,7 @@ RULE_MSG = [
     ("sourceShared", r"therefore it cannot be associated with any other transitions"),
     ("inflowToSource", r'has an inflow to Compartment ".*" which is a source'),
     ("numberTargetable", r"is targetable and in number units"),
+    ("timedVarying", r"drives a timed transition so its value cannot vary over time"),
     ("cyclic", r"Circular dependencies in parameters were found"),
     ("nameSymbol", r"cannot contain any of these reserved symbols"),
     ("nameKeyword", r'Requested code name ".*" is a reserved keyword'),
@@ -456,6 +461,11 @@ def run_errors(ctx, rec):
     for row in rows:
         ok = EF.wellformed(row)
         ctx.case({"api": "errors_fmt", "file": row[0], "line": row[1]}, nontrivial=row[4] >= 2, sample=None)
+        if row[0] == "framework.py" and row[2] == "InvalidFramework" and row[4] >= 2:
+            # the row of the translator table that carries the message of rule `timedVarying` (message -> rule: RULE_MSG)
+            src_line = (core.REPO / "atomica" / row[0]).read_text().split("\n")[row[1] - 1]
+            if impl_rule(src_line) == "timedVarying":
+                ctx.count("errors_fmt.row.timedVarying" + ("" if ok else ".malformed"))
         if ok:
             continue
         (f, ln, cls, kind, ph, sup, par) = row
@@ -582,6 +592,8 @@ def run_frameworks(ctx, rec, nproc):
                 ctx.count(f"base.{b['origin']}.accept")
                 if ro["chain"] == "ok":
                     ctx.count("chain.ok")
+                    if b["origin"] == "generated" and any(p.get("timed") == "y" and isinstance(p.get("function"), str) for p in b["spec"]["pars"]):
+                        ctx.count("timedConstant.generated_base_runs")
                 elif ro["chain"] is not None:
                     ch = ro["chain"]
                     rec.violation({"api": "accepted-framework-chain", "mutation": "none", "stage": ch["stage"], "outcome": ch["outcome"], "where": ch["where"]},
@@ -637,8 +649,8 @@ def run_frameworks(ctx, rec, nproc):
     tasks = []
     for (b, e, m) in cases:
         want_chain = False
-        if e["expect"] == "accept" and e["runs"] and b["origin"] == "generated" and chain_budget > 0:
-            want_chain = True
+        if e["expect"] == "accept" and e["runs"] and b["origin"] == "generated" and (chain_budget > 0 or e["id"] == "timed.constant_function"):
+            want_chain = True  # (a timed parameter with a constant function must always be shown to build and run)
             chain_budget -= 1
         tasks.append({"spec": m, "chain": "full" if want_chain else None})
     t0 = time.time()
@@ -666,6 +678,8 @@ def run_frameworks(ctx, rec, nproc):
         if e["expect"] == "reject":
             if ro["outcome"] in DEDICATED["framework"]:
                 ctx.count("mut.reject.dedicated")
+                if e["rule"] == "timedVarying" and impl_rule(ro["msg"]) == "timedVarying":
+                    ctx.count("timedVarying.rejected")
                 if e["rule"]:
                     _compare_rule(ctx, {"verdict": "err:" + e["rule"]}, ro, mid, b["name"])
             elif ro["outcome"] == "accept":
@@ -678,6 +692,8 @@ def run_frameworks(ctx, rec, nproc):
                 ctx.count("mut.accept.ok")
                 if ro["chain"] == "ok":
                     ctx.count("chain.ok")
+                    if mid == "timed.constant_function":
+                        ctx.count("timedConstant.accepted_runs")
                 elif ro["chain"] is not None:
                     ch = ro["chain"]
                     rec.violation({"api": "accepted-framework-chain", "mutation": mid, "stage": ch["stage"], "outcome": ch["outcome"], "where": ch["where"]},
